@@ -222,8 +222,61 @@ def interface(ctx):
   ctx.require(len(subs) >= 7, 'only %d concrete EventSequence implementations found' % len(subs))
 
 
+def _unrolled_receivers(ci, m, method):
+  """Receivers of `.<method>(...)` calls in m in execution order; a `for t in <tuple>` / `zip(<tuple>, ...)` loop whose iterable
+  resolves to a literal tuple (directly, or through a property of the class that returns one) is unrolled.  None if unresolved."""
+  def tuple_of(e):
+    if isinstance(e, (ast.Tuple, ast.List)):
+      return list(e.elts)
+    if isinstance(e, ast.Attribute) and isinstance(e.value, ast.Name) and e.value.id == 'self' and e.attr in ci.methods:
+      rets = [s for s in U.walk_stmts(ci.methods[e.attr].node) if isinstance(s, ast.Return)]
+      if len(rets) == 1 and isinstance(rets[0].value, (ast.Tuple, ast.List)):
+        return list(rets[0].value.elts)
+    return None
+  out = []
+  for st in m.node.body:
+    if isinstance(st, ast.For):
+      it, tg = st.iter, st.target
+      elems = None
+      if isinstance(it, ast.Call) and dotted(it.func) == 'zip' and it.args and isinstance(tg, ast.Tuple) and len(tg.elts) == len(it.args):
+        cols = [tuple_of(a) for a in it.args]
+        if cols[0] is not None:
+          elems, var = cols[0], (tg.elts[0].id if isinstance(tg.elts[0], ast.Name) else None)
+      else:
+        elems, var = tuple_of(it), (tg.id if isinstance(tg, ast.Name) else None)
+      calls = [c for c in U.calls_in(st) if isinstance(c.func, ast.Attribute) and c.func.attr == method]
+      if calls:
+        if elems is None or var is None or not all(isinstance(c.func.value, ast.Name) and c.func.value.id == var for c in calls):
+          return None
+        out.extend(norm_text(e) for e in elems)
+    else:
+      out.extend(norm_text(c.func.value) for c in U.calls_in(st) if isinstance(c.func, ast.Attribute) and c.func.attr == method)
+  return out
+
+
+def leadsheet_append_order(ctx, ci):
+  """Location-independent (validate before mutating): Melody.append rejects an out-of-range event with ValueError, while
+  ChordProgression.append accepts anything.  LeadSheet.append must therefore hand the melody event over *first*: if the chord is
+  appended before the melody event is refused, a caught rejection leaves the chords one step longer than the melody, every later
+  pair is misaligned and slicing / copying raises MelodyChordsMismatchError."""
+  m = ci.methods.get('append')
+  if m is None:
+    return
+  mel = ctx.cls('melodies_lib:Melody').methods.get('append')
+  if mel is None or not any(isinstance(x, ast.Raise) for x in ast.walk(mel.node)):
+    return          # the melody side no longer validates: the order does not matter
+  recv = _unrolled_receivers(ci, m, 'append')
+  if recv is None or 'self._melody' not in recv or 'self._chords' not in recv:
+    return
+  ok = recv.index('self._melody') < recv.index('self._chords')
+  ctx.ob('PAIRED/append-validates-first', m, m.node, ok, 'the melody event (which may be refused) is appended before the chord' if ok else
+         'LeadSheet.append appends to %s: the chord is stored before Melody.append has had the chance to refuse the melody event, so a rejected append leaves melody and chords '
+         'with different lengths' % ', then '.join(recv), construct='LeadSheet.append: melody first', definite=True)
+
+
 def leadsheet(ctx):
   ci = ctx.cls('lead_sheets_lib:LeadSheet')
+  leadsheet_append_order(ctx, ci)
   pairs = {'append': None, 'set_length': None, 'increase_resolution': None, 'transpose': None}
   for name in pairs:
     m = ci.methods.get(name)
@@ -365,6 +418,35 @@ def step_types(ctx, bp, ns):
          construct='event types counted by num_steps', definite=True)
 
 
+def set_length_same(ctx, sl):
+  """Location-independent, by scenario (sa.scenario): set_length(n) on a sequence that already has n steps leaves it as it is.  Under
+  `steps == <current length>` (self.num_steps / len(self) / len(self._events) all equal to steps) every deletion from the event
+  list must be unreachable, or its slice must start at `steps` or later: `del events[k:]` with k evaluating to 0 - a signed
+  "number of missing steps" that happens to be zero - wipes the whole sequence."""
+  from sa import scenario
+  fn = sl.node
+  steps = sl.params()[1]
+  sb = dict((a, nf.rat(E(steps))) for a in ('self.num_steps', 'len(self)', 'len(self._events)'))
+  for st in U.walk_stmts(fn):
+    if not (isinstance(st, ast.Delete) and len(st.targets) == 1 and isinstance(st.targets[0], ast.Subscript) and isinstance(st.targets[0].slice, ast.Slice) and
+            norm_text(st.targets[0].value) == 'self._events' and st.targets[0].slice.upper is None and st.targets[0].slice.lower is not None):
+      continue
+    conds = scenario.reach_conditions(fn, st)
+    vals = [(None if scenario.tv(t, sb) is None else (scenario.tv(t, sb) == p)) for t, p in conds]
+    # unreachable if some condition is definitely false; reached (for the inputs the undecided conditions admit) if every
+    # condition that involves the length is decided true
+    r = False if any(v is False for v in vals) else (True if any(v is True for v in vals) else None)
+    try:
+      lo = nf.rat(U.expand_locals(fn, st.targets[0].slice.lower, at=st)).subst(sb).const_value()
+    except nf.NFError:
+      lo = None
+    if r is False:
+      ctx.ob('STEPS/set-length-same', sl, st, True, 'no deletion is reached when the length is already `steps`', construct='set_length(current length) deletes nothing', definite=True)
+    elif r is True and lo is not None and lo <= 0:
+      ctx.ob('STEPS/set-length-same', sl, st, False, 'when the sequence already has `%s` steps, %s is reached with the slice start evaluating to %s: `del events[0:]` removes every '
+             'event, so set_length(n) on a sequence of n steps empties it' % (steps, norm_text(st), lo), construct='set_length(current length) deletes nothing', definite=True)
+
+
 # ------------------------------------------------------------------ S6
 def steps_family(ctx):
   bp = ctx.cls('performance_lib:BasePerformance')
@@ -409,6 +491,7 @@ def steps_family(ctx):
   ctx.ob('STEPS/set-length-branches', sl, sl.node, ok, 'too short -> append the difference, too long -> trim the difference' if ok else 'set_length does not append/trim exactly the difference')
   pr = ctx.cls('pianoroll_lib:PianorollSequence')
   sl = pr.methods['set_length']
+  set_length_same(ctx, sl)
   txt = [norm_text(s) for s in U.walk_stmts(sl.node)]
   ok = any(t == 'self._events += [()] * (steps - self.num_steps)' for t in txt) and any(t == 'del self._events[steps:]' for t in txt)
   ctx.ob('STEPS/pianoroll-set-length', sl, sl.node, ok, 'pads with (steps - num_steps) empty frames or truncates at steps' if ok else 'PianorollSequence.set_length does not pad/truncate to exactly `steps` frames')
